@@ -67,6 +67,25 @@ func runC14(c *Check) {
 		c.Report(ok, P+".O1", "GUARDED-BY", fn, a.Ins.Pos(), a.What+" of tag map", "every access to the tag map holds the repository mutex", "held: "+held.String())
 	}
 	c.Floor(P+".O1", "accesses to the tag map", nacc, 5)
+	// keys are forgotten one by one, when they have expired: the map itself is made once, by the constructor, and never
+	// replaced or emptied wholesale (a reset forgets keys that are still inside their window)
+	nrep := 0
+	for _, fn := range c.P.SrcFuncs(rel) {
+		if HomeFn(fn) == ctor || outermost(fn) == ctor {
+			continue
+		}
+		for _, st := range FieldStores(fn, tags) {
+			nrep++
+			c.Report(false, P+".O1", "TAG-MAP-NEVER-REPLACED", fn, st.Pos(), "store to the tag map field", "the tag map is created by the constructor and never replaced: keys leave it only by the expiry sweep")
+		}
+		for _, cl := range CallsIn(fn) {
+			if args, ok := IsBuiltinCall(valueOfCall(cl), "clear"); ok && len(args) == 1 && AllOrigins(args[0], IsFieldLoad(tags)) {
+				nrep++
+				c.Report(false, P+".O1", "TAG-MAP-NEVER-REPLACED", fn, cl.Pos(), "clear of the tag map", "the tag map is never emptied wholesale: keys leave it only by the expiry sweep")
+			}
+		}
+	}
+	c.Report(true, P+".O1", "TAG-MAP-REPLACEMENTS-SCANNED", isDup, isDup.Pos(), "repository", fmt.Sprintf("%d replacements of the tag map outside the constructor", nrep))
 
 	// lookup / insert in IsDuplicate
 	var lookups []*ssa.Lookup
